@@ -363,14 +363,14 @@ func (p *mdPrinter) label(dest, title string) string {
 			return d.label
 		}
 	}
-	p.defs = append(p.defs, refDef{fmt.Sprintf("lbl%d", len(p.defs)), dest, title})
+	p.defs = append(p.defs, refDef{fmt.Sprintf("lbl%d two three", len(p.defs)), dest, title})
 	return p.defs[len(p.defs)-1].label
 }
 
 func (p *mdPrinter) linkTail(x Inl, text string, kids []Inl) string {
-	nopt := 7
+	nopt := 9
 	if simpleLabel(kids) {
-		nopt = 9
+		nopt = 11
 	}
 	c := p.ch.pick("link-form", nopt)
 	dest := p.lit(x.Dest, "dest")
@@ -394,7 +394,7 @@ func (p *mdPrinter) linkTail(x Inl, text string, kids []Inl) string {
 			return "(" + d + " (" + title + "))"
 		}
 		return "(" + d + " \"" + title + "\")"
-	case 4, 5, 6:
+	case 4, 5, 6, 7, 8:
 		l := p.label(x.Dest, x.Title)
 		switch c {
 		case 5:
@@ -402,6 +402,10 @@ func (p *mdPrinter) linkTail(x Inl, text string, kids []Inl) string {
 		case 6:
 			l = " " + l + "\n" // leading/trailing whitespace and a line ending inside the label
 			l = " " + strings.TrimSpace(l) + " "
+		case 7:
+			l = strings.Replace(l, " ", "   ", 1) // a wide run first, single spaces after it
+		case 8:
+			l = strings.ToUpper(strings.Replace(l, " ", " \t", 1))
 		}
 		return "[" + l + "]"
 	}
@@ -422,7 +426,7 @@ func (p *mdPrinter) linkTail(x Inl, text string, kids []Inl) string {
 		}
 		p.defs = append(p.defs, refDef{text, x.Dest, x.Title})
 	}
-	if c == 7 {
+	if c == 9 {
 		return "[]"
 	}
 	return ""
